@@ -12,7 +12,7 @@ import pyfvtool as pf
 
 from ..oracles import CLASSES, NDIM, LIMITERS, SIDES, AXKIND, Geom
 from .. import gen
-from ..common import SpySolver, residual_err, interior_index, to_list, TOL
+from ..common import SpySolver, residual_err, interior_index, to_list, TOL, solve_with
 
 ID = 'C08'
 RULE = ('cases = (pair kind in {embedding Grid1D->2D->3D on every axis position, CylindricalGrid1D->CylindricalGrid2D, '
@@ -96,7 +96,11 @@ def execute(P, tset, mode, limname, dts, alphas, hmin=None):
     FL = pf.fluxLimiter(limname)
     out = []
     with np.errstate(all='ignore'):
-        for dt, alpha in zip(dts, alphas):
+        for istep, (dt, alpha) in enumerate(zip(dts, alphas)):
+            if istep == 1 and P.get('spec2') is not None:
+                for sd, v2 in P['spec2']['sides'].items():
+                    if not np.array_equal(v2['c'], P['spec']['sides'][sd]['c']):
+                        getattr(phi.BCs, sd).c = v2['c']
             if mode == 'implicit':
                 terms = [pf.transientTerm(phi, dt, alpha), -pf.diffusionTerm(Df)]
                 if 'central' in tset:
@@ -108,7 +112,7 @@ def execute(P, tset, mode, limname, dts, alphas, hmin=None):
                 if 'src' in tset:
                     terms += [pf.linearSourceTerm(pf.CellVariable(m, P['beta'].copy())), pf.constantSourceTerm(pf.CellVariable(m, P['gamma'].copy()))]
                 spy = SpySolver()
-                pf.solvePDE(phi, terms, externalsolver=spy)
+                solve_with(pf, spy, phi, terms, default_path=bool(P.get('default_path')))
                 M, b, x = spy.last
                 out.append({'M': M, 'b': b, 'x': x, 'full': np.array(phi._value, copy=True)})
             else:
@@ -270,20 +274,28 @@ def run_case(case):
     dts = [float(10 ** rng.uniform(-2, 1)) for _ in range(nsteps)]
     alphas = [float(10 ** rng.uniform(-0.5, 0.5)) for _ in range(nsteps)]
     cov, maxerr, bad = {}, {}, []
+    transform = None
     if kind == 'embed':
         lowcls, highcls, p = EMBED[case['pair']]
         P = make_problem(rng, lowcls, 4 if NDIM[lowcls] == 1 else 3)
-        Q, lift, info = embed(P, highcls, p, rng)
+        st_ = rng.bit_generator.state
+
+        def transform(PP):
+            rng.bit_generator.state = st_
+            return embed(PP, highcls, p, rng)
+        Q, lift, info = transform(P)
         label = '%s->%s@%d' % (lowcls, highcls, p)
     elif kind == 'permute':
         cls = case['cls']
         P = make_problem(rng, cls, 4 if NDIM[cls] == 2 else 3)
-        Q, lift, info = permute(P, tuple(case['perm']))
+        transform = lambda PP: permute(PP, tuple(case['perm']))
+        Q, lift, info = transform(P)
         label = '%s perm %r' % (cls, case['perm'])
     elif kind == 'mirror':
         cls = case['cls']
         P = make_problem(rng, cls, 4 if NDIM[cls] < 3 else 3)
-        Q, lift, info = mirror(P, case['axis'])
+        transform = lambda PP: mirror(PP, case['axis'])
+        Q, lift, info = transform(P)
         label = '%s mirror %d' % (cls, case['axis'])
     elif kind == 'shift':
         cls = case['cls']
@@ -297,15 +309,34 @@ def run_case(case):
                 i0[k], i1[k] = 0, -1
                 arr[tuple(i1)] = arr[tuple(i0)]
         s = int(rng.integers(1, max(2, P['vals'].shape[k])))
-        Q, lift, info = shift(P, k, s)
+        transform = lambda PP: shift(PP, k, s)
+        Q, lift, info = transform(P)
         label = '%s shift axis %d by %d' % (cls, k, s)
     else:
         raise KeyError(kind)
+    if case.get('bc_edit'):
+        # the boundary data of ONE side are changed between two steps (through the setter, nothing else touched); the transformed
+        # problem receives the correspondingly transformed edit
+        gP = Geom(P['cls'], P['faces'])
+        cand = [(kk, jj) for kk in range(gP.nd) if kk not in P['spec']['periodic'] for jj in (0, 1)]
+        if cand and len(dts) >= 1:
+            if len(dts) < 2:
+                dts, alphas = dts * 2, alphas * 2
+            kk, jj = cand[int(rng.integers(0, len(cand)))]
+            spec2 = {'periodic': list(P['spec']['periodic']), 'sides': {sd: dict(v) for sd, v in P['spec']['sides'].items()}}
+            sd = SIDES[kk][jj]
+            spec2['sides'][sd]['c'] = spec2['sides'][sd]['c'] + (1.0 + np.abs(rng.normal(0, 1, np.shape(spec2['sides'][sd]['c']))))
+            P['spec2'] = spec2
+            Q2, _l2, _i2 = transform(dict(P, spec=spec2))
+            Q['spec2'] = Q2['spec']
+            cov['bc_edit_between_steps:' + sd] = 1
     gq = Geom(Q['cls'], Q['faces'])
     gp = Geom(P['cls'], P['faces'])
     hmin = min(min(float(np.min(gg.w[k] * np.min(gg.hscale(k)))) for k in range(gg.nd)) for gg in (gp, gq))
     P['flag_seed'] = list(case['seed']) + [1]
     Q['flag_seed'] = list(case['seed']) + [2]
+    P['default_path'] = bool(case['seed'][-1] % 2)            # the two executions of a pair use the two solver routes crosswise
+    Q['default_path'] = not P['default_path'] if case['seed'][-1] % 4 < 2 else P['default_path']
     lowres, gL = execute(P, tset, mode, limname, dts, alphas, hmin)
     highres, gH = execute(Q, tset, mode, limname, dts, alphas, hmin)
     for st_ in list(P.get('flag_styles', {}).values()) + list(Q.get('flag_styles', {}).values()):
@@ -370,6 +401,8 @@ def run_case(case):
             idx[k] = sorted(set([0, nk, (nk - info['shift']) % nk]))
             P2['u'][k][tuple(idx)] = 0.0
             Q2, lift2, _ = shift(P2, k, info['shift'])
+            if P2.get('spec2') is not None:
+                Q2['spec2'] = shift(dict(P2, spec=P2['spec2']), k, info['shift'])[0]['spec']
             l2, _g = execute(P2, tset, mode, limname, dts, alphas, hmin)
             h2, _g2 = execute(Q2, tset, mode, limname, dts, alphas, hmin)
             ok = True
@@ -412,13 +445,20 @@ def plan(tier, seed):
                         i += 1
                         cases.append({'kind': 'shift', 'cls': cls, 'axis': k, 'tset': tset, 'mode': mode, 'seed': [seed, 8, i]})
                         i += 1
+    # every case a second time with the boundary data of one side changed between two steps (implicit histories; cheap)
+    extra = []
+    for c in cases:
+        if c['mode'] == 'implicit':
+            c2 = dict(c, bc_edit=True, seed=[seed, 8, 500000 + c['seed'][2]])
+            extra.append(c2)
+    cases = cases + extra
     step = 12
     return [cases[j:j + step] for j in range(0, len(cases), step)]
 
 
 def floors(agg, tier):
     out = []
-    for k, need in (('pair:embed', 60), ('pair:permute', 40), ('pair:mirror', 40), ('pair:shift', 40), ('with_periodic', 30), ('periodic_flag:low', 20), ('periodic_flag:high', 20), ('periodic_flag:both', 20),
+    for k, need in (('pair:embed', 60), ('pair:permute', 40), ('pair:mirror', 40), ('pair:shift', 40), ('with_periodic', 30), ('bc_edit_between_steps:left', 5), ('bc_edit_between_steps:right', 5), ('bc_edit_between_steps:bottom', 5), ('bc_edit_between_steps:top', 5), ('bc_edit_between_steps:back', 3), ('bc_edit_between_steps:front', 3), ('periodic_flag:low', 20), ('periodic_flag:high', 20), ('periodic_flag:both', 20),
                     ('residual_checks', 100), ('direct_checks', 100)):
         if agg['cov'].get(k, 0) < need:
             out.append('%s < %d' % (k, need))
